@@ -206,6 +206,16 @@ def run_history(ns, mon, case):
                 g = np.array(seeds[node][0].data, dtype=np.float64)
         else:
             g = rng.standard_normal(t.shape) if t.shape else np.array(float(rng.uniform(0.5, 2.0)))
+        own = None
+        if not reuse and rng.random() < 0.2:
+            # the seed is the .grad of some tensor of the history (a leaf's accumulated gradient, a retained intermediate's, the root's own):
+            # what is propagated is the value it holds when the call is made
+            cands = [v_ for v_ in w.tvals.values() if v_._grad is not None and tuple(v_._grad.shape) == tuple(t.shape) and v_._grad.size
+                     and np.all(np.isfinite(v_._grad)) and float(np.max(np.abs(v_._grad))) < 1e6]
+            if cands:
+                own = cands[int(rng.integers(len(cands)))]
+                g = np.array(own._grad, dtype=np.float64)
+                counters["seeds_taken_from_a_grad_attribute"] = counters.get("seeds_taken_from_a_grad_attribute", 0) + 1
         contrib, ni = w.contribution(node, g)
         ninc += ni
         dep = w.deps()
@@ -213,10 +223,16 @@ def run_history(ns, mon, case):
         anc = ancestors(w.prog, node)
         snap = snapshot(w, exclude=anc)
         w.events.append(["backward", node, "leaf" if node < len(LEAVES) else ("interior" if is_consumed(w.prog, node) else "root")])
-        if not reuse:
+        if not reuse and own is None:
             seeds[node] = (ns.Tensor(np.array(g, dtype=np.float64)), np.array(g, dtype=np.float64))
         try:
-            t.backward(seeds[node][0])
+            if own is not None:
+                import io, contextlib
+                with contextlib.redirect_stdout(io.StringIO()):
+                    seed_t = own.grad
+                t.backward(seed_t)
+            else:
+                t.backward(seeds[node][0])
         except Exception as e:
             import traceback
             viol.append(V("history:backward-raises", f"backward raised {type(e).__name__} in a legal history", error=str(e)[:200],
